@@ -3,6 +3,7 @@ Line-protocol driver: one JSON request per input line, one JSON reply per output
 Unknown or malformed requests answer {"bad-op": ...}; nothing is ever defaulted.
 -/
 import Driver.Codec
+import Driver.OntCodec
 open Lean Edxml Driver
 
 def opHash (j : Json) : R Json := do
@@ -131,6 +132,18 @@ def opEquiv (j : Json) : R Json := do
   | .ok r => pure (Json.mkObj [("ok", r)])
   | .error e => pure (mergeErrJson e)
 
+def opCmp (j : Json) : R Json := do
+  let kind ← fldStr j "kind"
+  let defs ← fldArr j "defs"
+  let a := defs.toArray
+  let mut rows : Array Json := #[]
+  for x in a do
+    let mut row : Array Json := #[]
+    for y in a do
+      row := row.push (cmpJson (← cmpKind kind x y))
+    rows := rows.push (Json.arr row)
+  pure (Json.mkObj [("cmp", Json.arr rows)])
+
 def natList (j : Json) : R (List Nat) := do (← arr j).mapM fun x => x.getNat?
 
 def itemOf (j : Json) : R Item := do
@@ -189,6 +202,7 @@ def dispatch (j : Json) : R Json := do
   | "mergetree" => opMergeTree j
   | "parse" => opParse j
   | "equiv" => opEquiv j
+  | "cmp" => opCmp j
   | x => throw s!"unknown op {x}"
 
 partial def loop (inp out : IO.FS.Stream) : IO Unit := do
